@@ -76,10 +76,15 @@ func NewSpecValidator(schema *spec.Schema, formats strfmt.Registry) *SpecValidat
 		o(schemaOptions)
 	}
 
+	// the package defaults may be changed by SetContinueOnErrors from another goroutine
+	defaultOptsMutex.Lock()
+	options := defaultOpts
+	defaultOptsMutex.Unlock()
+
 	return &SpecValidator{
 		schema:        schema,
 		KnownFormats:  formats,
-		Options:       defaultOpts,
+		Options:       options,
 		schemaOptions: schemaOptions,
 	}
 }
